@@ -96,6 +96,14 @@ def handle : Handler := fun j => do
       | some .rmdir => dirOps.contains "REMOVE"
       | _ => true
     pure (verdict agree none (Json.str fsop) [s!"table-{fsop}"])
+  | "bigdir" =>
+    -- the cache is tracked and scanned from its creation on (`init`): a file that appears during the
+    -- construction is either seen by the scan or announced by an event
+    let converged ← getBool obs "converged"
+    let p ← getBool obs "panic"
+    let judge : Option String := if p then some "panic"
+      else if converged then none else some "file-created-during-cache-construction-never-noticed"
+    pure (verdict converged judge (Json.bool true) ["created-during-construction"])
   | "history" =>
     let applied ← (← getArr j "applied").toList.mapM (·.getStr?)
     let start ← getBool j "dirAtStart"
